@@ -190,6 +190,8 @@ def with_float_fallback(fn, cfg, prefix):
     TypeError on them, the float twin of the same case decides."""
     res = fn(cfg)
     if not res.ok and cfg['mode'] == 'exact' and res.key == f'{prefix}:exception:TypeError':
+        if cfg['loss'].get('kind') == '01':
+            return Result(True, nontrivial=False, labels=['exact_arithmetic_unsupported', 'discontinuous_loss_not_compared_in_floats'])
         res = fn(dict(cfg, mode='float'))
         res.labels = list(res.labels) + ['exact_arithmetic_unsupported']
     return res
